@@ -178,6 +178,8 @@ fn base_case(prop: &str, seed: u64, run: u64, opts: &Options, mode: Mode, files:
         path_args: vec![],
         list_poison: None,
         hardlinks: vec![],
+        explicit_real: false,
+        links_copy_up: false,
         symlinks: vec![],
         bogus_paths: vec![],
         bogus_first: false,
@@ -1124,7 +1126,9 @@ pub fn generate_c18(seed: u64, run: u64, corpus: &Corpus, tier: Tier, stats: &mu
     for i in 0..n {
         let dir = rng.below(3);
         let name = if rng.chance(1, 6) { "same".to_string() } else { format!("u{i}") };
-        let prefix = if form == PathForm::Explicit { "simfs:/" } else { "root/" };
+        // (explicit arguments also get placeholders in the scratch tree here: the product may ask
+        // the file system which names are the same file)
+        let prefix = "root/";
         let dir = if dir_with_ext == Some(dir) { format!("{dir}.pas") } else { dir.to_string() };
         let name = if i > 0 && rng.chance(1, 10) { name.to_uppercase() } else { name };
         // names with characters that mean something to a glob matcher, named literally
@@ -1265,6 +1269,7 @@ persistent: false,
     }
     dedup_faults(&mut case.faults);
     case.path_form = form;
+    case.explicit_real = form == PathForm::Explicit;
     if form == PathForm::FilesFrom && rng.chance(1, 3) {
         case.list_via_pipe = true;
     }
@@ -1281,6 +1286,19 @@ persistent: false,
                 let alias = format!("{dir}/hardlink_of_{}.pas", case.files.len());
                 let mut a = t.clone();
                 a.path = alias.clone();
+                match rng.below(4) {
+                    0 => {
+                        // the second name lives on a read-only mount of the same directory
+                        a.writable = false;
+                        stats.probe("c18_second_name_not_writable");
+                    }
+                    1 => {
+                        // overlay file system: one inode number, but the link breaks on write
+                        case.links_copy_up = true;
+                        stats.probe("c18_hard_link_that_breaks_on_write");
+                    }
+                    _ => {}
+                }
                 case.hardlinks.push((alias, t.path.clone()));
                 case.files.push(a);
                 stats.probe("c18_file_with_a_second_hard_linked_name");
